@@ -252,6 +252,11 @@ def instr(op, ops, block):
     raise Err("instruction")
 
 
+def write_if_changed(path, body):
+    if not os.path.exists(path) or open(path).read() != body:
+        open(path, "w").write(body)
+
+
 def main():
     files = sorted(glob.glob(os.path.join(a.repo, "internal", "bytealg", "*_amd64.s")))
     if not files:
@@ -282,9 +287,14 @@ def main():
                 o.append("")
     except Err as e:
         sys.stderr.write("asm2prog: cannot translate: %s\n" % e)
+        # no stale program may survive: the theorems about the kernels must stop checking
+        os.makedirs(a.out, exist_ok=True)
+        msg = str(e).replace("*)", "* )").replace("(*", "( *")
+        write_if_changed(os.path.join(a.out, "AsmProg.v"),
+                         "(* asm2prog could not translate the assembly: %s *)\nDefinition asm2prog_failed : True := 0.\n" % msg)
         sys.exit(2)
     os.makedirs(a.out, exist_ok=True)
-    open(os.path.join(a.out, "AsmProg.v"), "w").write("\n".join(o) + "\n")
+    write_if_changed(os.path.join(a.out, "AsmProg.v"), "\n".join(o) + "\n")
     print("asm2prog: %d files -> AsmProg.v" % len(files))
 
 
